@@ -278,7 +278,8 @@ def load_known(pid):
     if not os.path.exists(p):
         return []
     data = json.load(open(p))
-    return [e for e in data.get("findings", []) if e.get("property") == pid]
+    return [e for e in data.get("findings", [])
+            if e.get("property") == pid or pid in e.get("properties", [])]
 
 
 class Check:
